@@ -56,3 +56,7 @@ Qed.
 
 Definition option_eqb {A} (eqb : A -> A -> bool) (a b : option A) : bool :=
   match a, b with Some x, Some y => eqb x y | None, None => true | _, _ => false end.
+
+(* indices (as N) of the elements satisfying f: used by generated case files *)
+Definition idx_where {A} (f : A -> bool) (l : list A) : list N :=
+  List.map (fun p => N.of_nat (fst p)) (List.filter (fun p => f (snd p)) (index_list l)).
